@@ -1,17 +1,8 @@
 INIT Init
 NEXT Next
 CONSTANTS
-  Signs <- Both
-  Sigs <- Sig2
-  Exps <- ExpSmall
-  Precs = {1, 2, 3}
-  UncSigs <- SigEdge
-  UncOffs = {}
-  UncPrecs = {}
-  Units = {}
-  Convs = {}
-  UncSrcs = {"arg"}
-  RomanMax = 0
+  SliceTable <- AllSlices
+  SliceNames = {"small_q"}
 INVARIANT TypeOK
 INVARIANT RoundCarries
 INVARIANT ModelNumberDenotes
